@@ -25,5 +25,11 @@ def obligations(tier):
               bounds='start any day 1900..2088, end = start + 1..4000 days (both symbolic)',
               encodes=[B + 'base_dateperiod:BaseDatePeriodParser.parse', B + 'base_dateperiod:BaseDatePeriodParser._merge_two_times_points',
                        B + 'utilities:TimexUtil.generate_date_period_timex_str', B + 'utilities:TimexUtil.generate_date_period_timex_unit_count',
-                       B + 'utilities:DateContext.sync_year'])]
+                       B + 'utilities:DateContext.sync_year']),
+           Ob('O10.5-time-points', 'sx', 'harness.C10:h_time_points', twin='harness.C10:t_time_points', slices=[{'ampm1': a, 'ampm2': b} for a in (0, 1) for b in (0, 1)], timeout=t,
+              descr='"from <time> to <time>": BaseTimePeriodParser.merge_two_time_points on two clock times (with / without am-pm mark): start < end <= start + 24 h, '
+                    'endpoints on the given clock times (an unmarked one may move by 12 h), and the PT..H..M written in the TIMEX equals end - start (past midnight included)',
+              bounds='every h:m for both endpoints (1..12 when unmarked), any reference date 1950..2090 (day <= 28); equal explicit endpoints excluded',
+              encodes=[B + 'base_timeperiod:BaseTimePeriodParser.merge_two_time_points'],
+              stubs=['time extractor returns two fixed spans', 'time parser returns the symbolic clock time on the reference date with its TIMEX and ampm mark (C07 decides the real one)'])]
     return obs
